@@ -5,7 +5,7 @@ CONSTANTS QCap = 2 MaxPend = 1 MaxOps = 5
           NoInboundFilter = FALSE NoNullCheck = FALSE AnyoneOpens = FALSE
           RepIds = {5, 7}
           TrackHistory = TRUE FlowCache = "none" HostIps = {"x", "y"} HostPorts = {1}
-          StaleVerdict = "none" HopFollowsPeer = FALSE FlagChoices = {} SignedSrcs = {}
+          StaleVerdict = "none" HopFollowsPeer = FALSE VerdictMemo = "none" FlagChoices = {} SignedSrcs = {}
           SrcSet = {"prev"} DkSet = {"v4", "dom4"}
 INVARIANT TypeOK
 INVARIANT EmitOnlyAllowed
@@ -13,3 +13,4 @@ INVARIANT NeverToNull
 INVARIANT OpenedOnlyByPrevHop
 INVARIANT EmitOnlyWhenOpen
 INVARIANT QueueClean
+INVARIANT VerdictByOwnShape
